@@ -8,6 +8,14 @@
 //   G <t> n=<|solution()|> ; for every element:  x.. : reported value : f(closest feasible x) : feasible(x)
 //        [ P <penalized fitness of the internal population> ]   (steady-state algorithms)
 //   END | EXC <what> | STDEXC
+// Checkpoint / restore stage (case lines starting with K instead of O; <steps> = k+m, extra last field k):
+//   K <alg> <fn> <nobj> <nvar> <mu> <seed> <k+m> <useRef> <refval> <k>
+//   the configured optimizer runs k steps (G lines 0..k), is written to a text archive (read()/write() of ISerializable;
+//   MOEAD, which only has a member template serialize(Archive&), through that; RVEA's serialize(Archive&) cannot be
+//   instantiated -- ReferenceVectorGuidedSelection / ReferenceVectorAdaptation lack the two-argument serialize -- so RVEA has no restore stage), the archive is read into a FRESH
+//   optimizer object that only got the random generator (no mu, no reference point), "RESTORE <archive bytes>" is printed and
+//   the fresh object continues: G lines k..k+m (generation k again, from the restored object).  The generator and the
+//   objective function object are the same ones, so the stream of random numbers is that of an uninterrupted run.
 // All doubles are printed with %.17g (exact round trip).  The Python side evaluates the spec.
 #include <shark/Algorithms/AbstractMultiObjectiveOptimizer.h>
 #include <shark/Core/utility/KeyValuePair.h>
@@ -27,6 +35,7 @@
 #include <shark/Algorithms/DirectSearch/Operators/Selection/TournamentSelection.h>
 #include <shark/ObjectiveFunctions/Benchmarks/Benchmarks.h>
 #include <cstdio>
+#include <stdexcept>
 #include <fstream>
 #include <iostream>
 #include <sstream>
@@ -87,6 +96,32 @@ template <class F> static std::unique_ptr<Fn> mk(std::size_t nvar, std::size_t n
 	return std::unique_ptr<Fn>(f.release());
 }
 
+struct Handles { MOCMA* mocma; SteadyStateMOCMA* ss; SMSEMOA* sms; MOEAD* moead; RVEA* rvea; Handles() : mocma(0), ss(0), sms(0), moead(0), rvea(0) {} };
+
+// configure = false: a fresh object as a restoring program would create it (generator only)
+static std::unique_ptr<Opt> create(std::string const& alg, random::rng_type& rng, bool configure, std::size_t mu, int useRef,
+                                   RealVector const& ref, std::size_t steps, std::size_t nobj, Handles& h, std::size_t& expect) {
+	std::unique_ptr<Opt> opt; expect = mu;
+	if (alg == "MOCMA") { h.mocma = new MOCMA(rng); if (configure) { h.mocma->mu() = mu; if (useRef) h.mocma->indicator().setReference(ref); } opt.reset(h.mocma); }
+	else if (alg == "SSMOCMA") { h.ss = new SteadyStateMOCMA(rng); if (configure) { h.ss->mu() = mu; if (useRef) h.ss->indicator().setReference(ref); } opt.reset(h.ss); }
+	else if (alg == "SMSEMOA") { h.sms = new SMSEMOA(rng); if (configure) { h.sms->mu() = mu; if (useRef) h.sms->indicator().setReference(ref); } opt.reset(h.sms); }
+	else if (alg == "NSGA2") { RealCodedNSGAII* a = new RealCodedNSGAII(rng); if (configure) { a->mu() = mu; if (useRef) a->indicator().setReference(ref); } opt.reset(a); }
+	else if (alg == "NSGA2C") { CrowdingRealCodedNSGAII* a = new CrowdingRealCodedNSGAII(rng); if (configure) a->mu() = mu; opt.reset(a); }
+	else if (alg == "NSGA2E") { EpsRealCodedNSGAII* a = new EpsRealCodedNSGAII(rng); if (configure) a->mu() = mu; opt.reset(a); }
+	else if (alg == "NSGA3") { RealCodedNSGAIII* a = new RealCodedNSGAIII(rng); if (configure) a->mu() = mu; opt.reset(a); }
+	else if (alg == "MOEAD") { h.moead = new MOEAD(rng); if (configure) { h.moead->mu() = mu; h.moead->neighbourhoodSize() = std::min<std::size_t>(10, mu); } opt.reset(h.moead); }
+	else if (alg == "RVEA") { h.rvea = new RVEA(rng); if (configure) { h.rvea->approxMu() = mu; h.rvea->maxIterations() = steps + 1; }
+		expect = RVEA::suggestMu(nobj, mu); opt.reset(h.rvea); }
+	return opt;
+}
+
+static void dumpGen(std::ostream& o, std::size_t t, Opt const& opt, Fn const& f, Handles const& h) {
+	std::vector<RealVector> p; bool has = false;
+	if (h.ss) { p = pens(h.ss->m_parents); has = true; }
+	if (h.sms) { p = pens(h.sms->m_parents); has = true; }
+	dump(o, t, opt, f, has ? &p : 0);
+}
+
 int main(int argc, char** argv) {
 	std::ifstream in(argv[1]);
 	std::string line;
@@ -94,9 +129,10 @@ int main(int argc, char** argv) {
 		std::istringstream is(line);
 		std::string cmd, alg, fn; std::size_t nobj, nvar, mu, seed, steps; int useRef; double refval;
 		if (!(is >> cmd >> alg >> fn >> nobj >> nvar >> mu >> seed >> steps >> useRef >> refval)) continue;
-		// optional: the SAME optimizer object first completes an earlier run of `pre` steps (other seed) and is initialised again;
-		// everything printed must equal the run of a fresh object
+		// O lines, optional: the SAME optimizer object first completes an earlier run of `pre` steps (other seed) and is initialised again;
+		// everything printed must equal the run of a fresh object.  K lines: the number of steps before the checkpoint.
 		std::size_t pre = 0; is >> pre; if (!is) pre = 0;
+		bool restore = cmd == "K";
 		std::unique_ptr<Fn> f;
 		using namespace shark::benchmarks;
 		if (fn == "ZDT1") f = mk<ZDT1>(nvar, nobj); else if (fn == "ZDT2") f = mk<ZDT2>(nvar, nobj);
@@ -113,29 +149,37 @@ int main(int argc, char** argv) {
 			f->init();
 			typedef BoxConstraintHandler<RealVector> BH;
 			BH const& bh = static_cast<BH const&>(f->getConstraintHandler());
-			std::unique_ptr<Opt> opt; std::size_t expect = mu;
-			MOCMA* mocma = 0; SteadyStateMOCMA* ss = 0; SMSEMOA* sms = 0;
-			if (alg == "MOCMA") { mocma = new MOCMA(rng); mocma->mu() = mu; if (useRef) mocma->indicator().setReference(ref); opt.reset(mocma); }
-			else if (alg == "SSMOCMA") { ss = new SteadyStateMOCMA(rng); ss->mu() = mu; if (useRef) ss->indicator().setReference(ref); opt.reset(ss); }
-			else if (alg == "SMSEMOA") { sms = new SMSEMOA(rng); sms->mu() = mu; if (useRef) sms->indicator().setReference(ref); opt.reset(sms); }
-			else if (alg == "NSGA2") { RealCodedNSGAII* a = new RealCodedNSGAII(rng); a->mu() = mu; if (useRef) a->indicator().setReference(ref); opt.reset(a); }
-			else if (alg == "NSGA2C") { CrowdingRealCodedNSGAII* a = new CrowdingRealCodedNSGAII(rng); a->mu() = mu; opt.reset(a); }
-			else if (alg == "NSGA2E") { EpsRealCodedNSGAII* a = new EpsRealCodedNSGAII(rng); a->mu() = mu; opt.reset(a); }
-			else if (alg == "NSGA3") { RealCodedNSGAIII* a = new RealCodedNSGAIII(rng); a->mu() = mu; opt.reset(a); }
-			else if (alg == "MOEAD") { MOEAD* a = new MOEAD(rng); a->mu() = mu; a->neighbourhoodSize() = std::min<std::size_t>(10, mu); opt.reset(a); }
-			else if (alg == "RVEA") { RVEA* a = new RVEA(rng); a->approxMu() = mu; a->maxIterations() = steps + 1;
-				expect = RVEA::suggestMu(f->numberOfObjectives(), mu); opt.reset(a); }
-			else { std::cout << o.str() << "\nEXC unknown algorithm\n"; continue; }
+			Handles h; std::size_t expect = mu;
+			std::unique_ptr<Opt> opt = create(alg, rng, true, mu, useRef, ref, steps, f->numberOfObjectives(), h, expect);
+			if (!opt) { std::cout << o.str() << "\nEXC unknown algorithm\n"; continue; }
 			o << " mu=" << expect << " lo="; pv(o, bh.lower()); o << " hi="; pv(o, bh.upper()); o << "\n";
-			if (pre > 0) { rng.seed(seed + 7919); f->init(); opt->init(*f); for (std::size_t t = 0; t != pre; ++t) opt->step(*f); }
+			if (!restore && pre > 0) { rng.seed(seed + 7919); f->init(); opt->init(*f); for (std::size_t t = 0; t != pre; ++t) opt->step(*f); }
 			rng.seed(seed); f->init();
 			opt->init(*f);
-			for (std::size_t t = 0; t <= steps; ++t) {
+			std::size_t first = restore ? pre : steps;
+			for (std::size_t t = 0; t <= first; ++t) {
 				if (t > 0) opt->step(*f);
-				std::vector<RealVector> p; bool has = false;
-				if (ss) { p = pens(ss->m_parents); has = true; }
-				if (sms) { p = pens(sms->m_parents); has = true; }
-				dump(o, t, *opt, *f, has ? &p : 0);
+				dumpGen(o, t, *opt, *f, h);
+			}
+			if (restore) {
+				std::stringstream store;
+				{
+					TextOutArchive oa(store);
+					if (h.rvea) throw std::runtime_error("RVEA::serialize(Archive&) does not compile (its members only have a one-argument serialize)");
+					if (h.moead) h.moead->serialize(oa); else opt->write(oa);
+				}
+				Handles h2; std::size_t e2;
+				std::unique_ptr<Opt> opt2 = create(alg, rng, false, mu, useRef, ref, steps, f->numberOfObjectives(), h2, e2);
+				{
+					TextInArchive ia(store);
+					if (h2.moead) h2.moead->serialize(ia); else opt2->read(ia);
+				}
+				opt.reset();                       // the original object is gone
+				o << "RESTORE " << store.str().size() << "\n";
+				for (std::size_t t = pre; t <= steps; ++t) {
+					if (t > pre) opt2->step(*f);
+					dumpGen(o, t, *opt2, *f, h2);
+				}
 			}
 			o << "END\n";
 		}
